@@ -30,8 +30,8 @@ from engine.classes import Classes
 PID = 'C26'
 
 META = {
-    'technique': 'forward dataflow of colour-plane tags over the event-CFG (copy-paste / plane-consistency analysis), sibling cross-check of the recon-buffer selection idiom over the whole encoder, control-dependence and CFG reachability for the placement of the statistics call',
-    'text': 'Decides structural necessary conditions of exact per-frame SSE reporting: inside psnr_calculations no statement mixes colour planes (source buffer, recon buffer, strides, accumulator and result member all of one plane; accumulators reset between planes), the summed area uses width with the right padding and horizontal subsampling and height with the bottom padding and vertical subsampling, the recon buffer is selected by is_used_as_reference_flag exactly as at every sibling site and in the bit depth of the branch, the source is the saved unfiltered picture when temporal filtering is on, the three values reach the packet members of the same plane under stat_report, the computation is placed after the last in-loop filter, and every guard that skips a frame-level filter when the recon is not needed counts the statistics as a consumer. It does not decide the arithmetic itself (squares, 32-bit truncation, loop extents versus padding) nor that the encoder recon equals what a decoder reconstructs (C01).',
+    'technique': 'forward dataflow of colour-plane tags over the event-CFG (copy-paste / plane-consistency analysis), sibling cross-check of the recon-buffer selection idiom over the whole encoder, control-dependence and CFG reachability for the placement of the statistics call; reader/writer agreement of the predicate selecting the bit-depth variant of the reconstruction; lifetime classification (per picture versus per pool object) of the buffer a source-selection predicate tests',
+    'text': 'Decides structural necessary conditions of exact per-frame SSE reporting: inside psnr_calculations no statement mixes colour planes (source buffer, recon buffer, strides, accumulator and result member all of one plane; accumulators reset between planes), the summed area uses width with the right padding and horizontal subsampling and height with the bottom padding and vertical subsampling, the recon buffer is selected by is_used_as_reference_flag exactly as at every sibling site and in the bit depth of the branch, the source is the saved unfiltered picture when temporal filtering is on, the three values reach the packet members of the same plane under stat_report, the computation is placed after the last in-loop filter, and every guard that skips a frame-level filter when the recon is not needed counts the statistics as a consumer. It does not decide the arithmetic itself (squares, 32-bit truncation, loop extents versus padding) nor that the encoder recon equals what a decoder reconstructs (C01). Also decided: every configuration member the in-loop filter kernels consult when choosing the reconstruction variant they write is consulted by the statistics routines (C26.VARIANT), and a source selection that tests the presence of the saved copy is accepted only when that copy cannot outlive the picture.',
     'note': 'ssim_calculations shares the structure and is analysed as a sibling (its values are not part of the property statement)',
     'ref': 'DESIGN.md section 9.9',
 }
